@@ -51,6 +51,12 @@ def run(res):
                             shifts=(0, 1, 2, 3, 4) if thorough else (2, 3, 4) if name == 'c12_static' else (0,))
         if res.violations:
             break
+    if not res.violations:
+        # (B) recorded executions: 6 maps, 8 handles, 5 names, keys up to depth 3, 3 layers, armed load faults, staging
+        # moves, re-snapshots - and the repository's own tests that use ResourceMap / Handle
+        from . import resources_trace as rt
+        rt.trace_validate(res, 'c12_recorded', 600 if thorough else 100, 60 if thorough else 40)
+        rt.repo_tests_validate(res)
 
 
 def replay(res, path):
